@@ -33,7 +33,7 @@ func (comp) NewCase(h []string) kit.Runner {
 	case "A":
 		return &runnerA{raw: newRaw()}
 	case "B":
-		return &runnerB{w: getWorldB()}
+		return &runnerB{}
 	}
 	return nullRunner{}
 }
@@ -107,6 +107,10 @@ func main() {
 	}
 	if len(os.Args) > 1 && os.Args[1] == "child" {
 		child()
+		return
+	}
+	if len(os.Args) > 1 && os.Args[1] == "reqworker" {
+		reqWorker()
 		return
 	}
 	kit.Main(comp{}, factsA)
